@@ -11,13 +11,14 @@ open PyIpmi.Spec.Threads
 /-- The only program points where a thread can be blocked: the lock, the timer/event of the
 keep-alive loop, the application's barrier, the join. -/
 theorem stepThr_isSome {s : Sys} {t : Nat} {th : Thr} (h1 : th.pc ≠ .done)
-    (h2 : th.pc = .acquire → s.lock = none)
+    (h2 : th.pc = .acquire → s.lock = none) (h2' : th.pc = .idle → s.lock = none)
     (h3 : th.pc = .kaWait → s.stopped = true ∨ th.todo ≠ 0)
     (h4 : th.pc = .await → allDone .worker s.thr = true)
     (h5 : th.pc = .joinKa → allDone .keepAlive s.thr = true) : (stepThr s t th).isSome = true := by
   cases hpc : th.pc with
   | done => exact absurd hpc h1
   | acquire => simp [stepThr, hpc, h2 hpc]
+  | idle => simp only [stepThr, hpc, h2' hpc]; split <;> rfl
   | ssHdr k => cases k <;> simp [stepThr, hpc]
   | recv =>
     simp only [stepThr, hpc]
@@ -73,7 +74,7 @@ theorem deadlock_free {s : Sys} (hi : Inv s) (ht : Tear s) {t0 : Nat} {th0 : Thr
         k ≠ .closer → (k = .keepAlive → s.stopped = true) → (step s t1).isSome = true := by
       intro k t1 th1 h1 hk hd hnc hst
       simp only [step, h1]
-      apply stepThr_isSome hd (fun _ => hl)
+      apply stepThr_isSome hd (fun _ => hl) (fun _ => hl)
       · intro hp
         have := ht.kaPc _ _ h1 hp
         exact Or.inl (hst (by rw [← hk, this]))
@@ -94,6 +95,7 @@ theorem deadlock_free {s : Sys} (hi : Inv s) (ht : Tear s) {t0 : Nat} {th0 : Thr
     apply stepThr_isSome
     · intro h; exact hnp (Or.inl h)
     · intro _; exact hl
+    · intro _; exact hl
     · intro hp
       cases hs : s.stopped with
       | true => exact Or.inl rfl
@@ -113,12 +115,13 @@ def rank (xl : Nat) : PC → Nat
   | .done => 0 | .actStore => 1 | .kaWait => 1 | .release => 2 | .requeue => 3 | .recv => 4 | .send => 5
   | .ssHdr k => k + 6
   | .ssWrap => xl + 7 | .ssChk => xl + 8 | .ssStore => xl + 9 | .ssLoad => xl + 10 | .actLoad => xl + 11
-  | .acquire => xl + 12 | .hdrLoad => xl + 13 | .incStore => xl + 14 | .idle => xl + 15
-  | .chkAct => xl + 16 | .joinKa => xl + 17 | .stopSet => xl + 18 | .await => xl + 19
+  | .lkHdr => xl + 12 | .lkStore => xl + 13 | .lkLoad => xl + 14
+  | .acquire => xl + 15 | .hdrLoad => xl + 16 | .incStore => xl + 17 | .idle => xl + 18
+  | .chkAct => xl + 19 | .joinKa => xl + 20 | .stopSet => xl + 21 | .await => xl + 22
 
 /-- calls still to begin (keep-alive: intervals that may still elapse) × length of a call + steps
 left in the current phase -/
-def work (xl : Nat) (th : Thr) : Nat := th.todo * (xl + 20) + rank xl th.pc
+def work (xl : Nat) (th : Thr) : Nat := th.todo * (xl + 23) + rank xl th.pc
 
 def measure (s : Sys) : Nat := (s.thr.map (work s.xl)).sum
 
@@ -142,8 +145,8 @@ theorem mul_pred_lt (n L a b : Nat) (hn : n ≠ 0) (hb : b < L + a) : (n - 1) * 
   omega
 
 theorem work_afterCall (xl : Nat) (th : Thr) (r : CallRes) :
-    work xl (afterCall th r) < th.todo * (xl + 20) + 2 := by
-  have hle : (th.todo - 1) * (xl + 20) ≤ th.todo * (xl + 20) := Nat.mul_le_mul_right _ (Nat.sub_le _ _)
+    work xl (afterCall th r) < th.todo * (xl + 23) + 2 := by
+  have hle : (th.todo - 1) * (xl + 23) ≤ th.todo * (xl + 23) := Nat.mul_le_mul_right _ (Nat.sub_le _ _)
   cases hk : th.kind with
   | keepAlive =>
     simp only [work, afterCall, nextPc, hk, if_true]
@@ -181,6 +184,17 @@ theorem stepThr_dec {s s' : Sys} {t : Nat} {th : Thr} (h : stepThr s t th = some
     | none =>
       simp [stepThr, hpc, hl] at h; subst h
       exact ⟨_, rfl, rfl, by simp [work, rank, hpc]⟩
+  | idle =>
+    cases hsl : s.seqLocked with
+    | false =>
+      simp [stepThr, hpc, hsl] at h; subst h
+      exact ⟨_, rfl, rfl, by simp [work, rank, hpc]⟩
+    | true =>
+      cases hl : s.lock with
+      | some x => simp [stepThr, hpc, hsl, hl] at h
+      | none =>
+        simp [stepThr, hpc, hsl, hl] at h; subst h
+        exact ⟨_, rfl, rfl, by simp [work, rank, hpc]⟩
   | actLoad =>
     simp [stepThr, hpc] at h; subst h
     refine ⟨_, rfl, rfl, ?_⟩
@@ -297,6 +311,17 @@ theorem stepThr_kind {s s' : Sys} {t : Nat} {th : Thr} (ht : Tear s) (hget : s.t
     | none =>
       simp [stepThr, hpc, hl] at h; subst h
       exact ⟨_, rfl, rfl, fun _ => Or.inl ⟨rfl, rfl, by simp⟩⟩
+  | idle =>
+    cases hsl : s.seqLocked with
+    | false =>
+      simp [stepThr, hpc, hsl] at h; subst h
+      exact ⟨_, rfl, rfl, fun _ => Or.inl ⟨rfl, rfl, by simp⟩⟩
+    | true =>
+      cases hl : s.lock with
+      | some x => simp [stepThr, hpc, hsl, hl] at h
+      | none =>
+        simp [stepThr, hpc, hsl, hl] at h; subst h
+        exact ⟨_, rfl, rfl, fun _ => Or.inl ⟨rfl, rfl, by simp⟩⟩
   | actLoad =>
     simp [stepThr, hpc] at h; subst h
     refine ⟨_, rfl, rfl, fun _ => Or.inl ⟨rfl, rfl, ?_⟩⟩
